@@ -4,7 +4,7 @@ CHECK = {
     "harness": "c14_raycast.cpp",
     "srcs": GRID,
     "flavours": ["asan"],
-    "quick": {"shards": 4, "timeout": 900},
+    "quick": {"shards": 8, "timeout": 900},
     "thorough": {"shards": 16, "timeout": 7200},
     "required_categories": ["f2", "d2", "f3", "d3", "ctor_symmetric_range", "ctor_interval", "res_dyadic",
                             "grid_1000_to_2000_cells", "grid_offset_from_frame_origin",
